@@ -515,8 +515,10 @@ def parent(args):
         wall_s=round(wall, 2),
         violations=nviol,
     )
-    os.makedirs(os.path.join(ROOT, "evidence"), exist_ok=True)
-    with open(os.path.join(ROOT, "evidence", f"{args.id}.json"), "w") as fh:
+    # VERIF_EVIDENCE_DIR: sensitivity runs against a deliberately broken tree must not overwrite the committed evidence
+    evdir = os.environ.get("VERIF_EVIDENCE_DIR") or os.path.join(ROOT, "evidence")
+    os.makedirs(evdir, exist_ok=True)
+    with open(os.path.join(evdir, f"{args.id}.json"), "w") as fh:
         json.dump(ev, fh, indent=1, default=str)
     for line in out_lines:
         print(line)
